@@ -211,6 +211,29 @@ if not hasattr(cherrypy.tools, 'c10tf'):
     cherrypy.tools.c10tf = FaultTool('before_handler', _tool_noop, priority=56)
 
 
+def _tool_err(tag='e0'):
+    """The callable of an ErrorTool: answers for the failed request, saying which settings it was called with."""
+    resp = cherrypy.serving.response
+    resp.status = 500
+    resp.headers['Content-Type'] = 'text/plain'
+    resp.headers.pop('Content-Length', None)
+    tok = CUR.plan['token'] if getattr(CUR, 'plan', None) else 'NONE'
+    resp.body = ('errtool tag=%s token=%s' % (tag, tok)).encode('latin-1')
+
+
+def _tool_h(tag='h0'):
+    """The callable of a HandlerTool (runs at before_handler, does not take the request over)."""
+    cherrypy.serving.response.headers['X-C10-H'] = str(tag)
+    return False
+
+
+_tool_err.__name__ = _tool_err.c10name = 'c10err'
+_tool_h.__name__ = _tool_h.c10name = 'c10h'
+if not hasattr(cherrypy.tools, 'c10err'):
+    cherrypy.tools.c10err = _cptools.ErrorTool(_tool_err)
+    cherrypy.tools.c10h = _cptools.HandlerTool(_tool_h)
+
+
 def c10_error_response():
     """request.error_response of sites with the `errresp` flag: what Request.run installs, or a fault."""
     maybe_fault('error_response')
@@ -484,6 +507,7 @@ OPS = {
     'toolmaps.tools.set':  ('toolmapTools', 'add'),
     'toolmaps.tools.clear': ('toolmapTools', 'del'),
     'params.set':          ('params', 'add'),
+    'params.value.append': ('params', 'add'),
     'headers.set':         ('headers', 'add'),
     'header_list.append':  ('headerList', 'add'),
     'cookie.set':          ('cookie', 'add'),
@@ -553,6 +577,12 @@ def apply_op(op, token):
         req.toolmaps.get('tools', {}).clear()
     elif name == 'params.set':
         req.params[marker] = token
+    elif name == 'params.value.append':      # in place, on the values the framework parsed (repeated keys are lists)
+        lists = [v for v in req.params.values() if isinstance(v, list)]
+        for v in lists:
+            v.append(marker)
+        if not lists:
+            req.params[marker] = [token]
     elif name == 'headers.set':
         req.headers['X-' + marker] = token
     elif name == 'header_list.append':
@@ -608,8 +638,10 @@ def seen_tokens():
     """The call's token as cherrypy's thread-local machinery shows it, through several channels."""
     out = {}
     try:
-        out['proxy.qs'] = cherrypy.request.query_string
-        out['serving.qs'] = cherrypy.serving.request.query_string
+        if not (getattr(CUR, 'plan', None) or {}).get('rawqs'):
+            out['proxy.qs'] = cherrypy.request.query_string
+            out['serving.qs'] = cherrypy.serving.request.query_string
+        out['proxy.header'] = cherrypy.serving.request.headers.get('X-C10-Token')
         out['environ'] = cherrypy.request.wsgi_environ.get('c10.token')
         out['header'] = cherrypy.request.headers.get('X-C10-Token')
         p = cherrypy.request.params
@@ -889,9 +921,12 @@ def make_environ(plan, script_name):
     body = plan.get('body') or b''
     if isinstance(body, str):
         body = body.encode('latin-1')
-    qs = 'token=%s' % plan['token']
-    if plan.get('qs'):
-        qs += '&' + plan['qs']
+    if plan.get('rawqs'):
+        qs = plan.get('qs') or ''         # byte-identical for every request that uses it (the token travels in a header)
+    else:
+        qs = 'token=%s' % plan['token']
+        if plan.get('qs'):
+            qs += '&' + plan['qs']
     env = {
         'REQUEST_METHOD': plan.get('method', 'GET'), 'SCRIPT_NAME': script_name, 'PATH_INFO': plan['path'],
         'QUERY_STRING': qs, 'SERVER_NAME': 'localhost', 'SERVER_PORT': '80', 'SERVER_PROTOCOL': 'HTTP/1.1',
@@ -904,6 +939,53 @@ def make_environ(plan, script_name):
         env['CONTENT_LENGTH'] = str(len(body))
         env['CONTENT_TYPE'] = plan.get('ctype', 'application/x-www-form-urlencoded')
     return env
+
+
+def poison_marker(token):
+    return 'mk%skx99' % TOKEN_RE.match(token).group(1)
+
+
+def poison(rec, token):
+    """The call is over: write a mark of it, IN PLACE, into every per-request collection it had and into every
+    mutable value one level below (parsed parameter lists, per-tool argument dicts, hook lists, cookie morsels).
+    Nothing a later or concurrent request can reach may show it."""
+    pm = poison_marker(token)
+    done = set()
+
+    def mark(o, depth=0):
+        if o is None or id(o) in done:
+            return
+        done.add(id(o))
+        try:
+            if isinstance(o, dict):
+                if depth < 2:
+                    for v in list(dict.values(o)):
+                        if isinstance(v, (dict, list)) and not isinstance(v, (_cptools.Toolbox,)):
+                            mark(v, depth + 1)
+                if type(o).__name__ == 'SimpleCookie':
+                    for m in list(dict.values(o)):
+                        dict.__setitem__(m, 'comment', pm)
+                    return
+                dict.__setitem__(o, pm, pm if depth else [pm])
+            elif isinstance(o, list):
+                o.append(pm)
+        except Exception as e:          # an object that refuses the mark is not a leak
+            rec.setdefault('poison_errors', []).append(type(e).__name__)
+    for _stage, objs in rec['objs']:
+        for slot in ('params', 'bodyParams', 'headers', 'headerList', 'cookie', 'toolmaps', 'errorPage', 'hooks',
+                     'respHeaders', 'respCookie', 'processors', 'attemptCharsets', 'parts', 'config'):
+            o = objs.get(slot)
+            if slot == 'config' and isinstance(o, dict):
+                if id(o) not in done:
+                    done.add(id(o))
+                    o[pm] = pm          # the request's own dict; its VALUES are the site's (shared by design)
+                continue
+            if slot in ('errorPage', 'processors', 'headers', 'respHeaders') and isinstance(o, dict):
+                if id(o) not in done:
+                    done.add(id(o))
+                    dict.__setitem__(o, pm, pm)     # values are the site's callables / strings
+                continue
+            mark(o)
 
 
 def idle_state():
@@ -954,6 +1036,7 @@ def do_call(site, plan, park):
         rec['open'] = False
     rec.pop('last_req', None)
     rec.pop('start_ran_for', None)
+    poison(rec, plan['token'])
     CUR.prev_escaped = rec['exc'] is not None
     rec['idle_after'] = idle_state()
     rec['serving_after'] = rec['idle_after']['serving']
@@ -973,12 +1056,15 @@ def do_call(site, plan, park):
 # ------------------------------------------------------------------------------------------------
 import types as _types
 
+from cherrypy import _cpdispatch as _cpd
+_DISPATCHERS = (_cpd.Dispatcher,)
 DEEP_CLASSES = [_cprequest.Request, _cprequest.Response, _cprequest.HookMap, _cprequest.Hook, _cptree.Application,
                 _cptree.Tree, _cptools.Tool, _cptools.HandlerTool, _cptools.Toolbox, _cpwsgi.CPWSGIApp,
                 _cpwsgi.AppResponse, _cpwsgi.InternalRedirector, _cpreqbody.Entity, _cpreqbody.RequestBody,
                 _cpreqbody.Part, cherrypy._Serving, cherrypy._ThreadLocalProxy, C10Request]
 DEEP_MODULES = ['cherrypy', 'cherrypy._cprequest', 'cherrypy._cptree', 'cherrypy._cpdispatch', 'cherrypy._cptools',
-                'cherrypy._cpwsgi', 'cherrypy._cpreqbody']
+                'cherrypy._cpwsgi', 'cherrypy._cpreqbody', 'cherrypy._cperror', 'cherrypy._cpconfig',
+                'cherrypy.lib.httputil', 'cherrypy.lib.reprconf']
 # instance attributes that are memoised on first use and say nothing about any particular request
 LAZY_ATTRS = {'head'}
 
@@ -1000,7 +1086,7 @@ def _deep(v, seen, depth=0):
         return sorted(json.dumps(_deep(x, seen, depth + 1), sort_keys=True) for x in v)
     if isinstance(v, _cprequest.Hook):
         return canon_hook(v)
-    if isinstance(v, (_cptools.Tool, _cptools.Toolbox)):
+    if isinstance(v, (_cptools.Tool, _cptools.Toolbox, _DISPATCHERS)):
         if id(v) in seen:
             return cname(v)
         seen.add(id(v))
@@ -1071,6 +1157,9 @@ def deep_state(site, full=True):
                 av[k] = _deep(x, seen, 1)
         out['app%d object' % i] = av
     out['cherrypy.config'] = _deep(dict(cherrypy.config), seen, 1)
+    # tools, toolboxes and dispatchers are process-wide singletons: nothing of a request may be parked on them
+    out['default toolbox'] = {k: _deep(x, seen, 1) for k, x in sorted(vars(cherrypy.tools).items())}
+    out['default dispatcher'] = _deep(_cprequest.Request.dispatch, seen, 1)
     if not full:
         return out
     for c in DEEP_CLASSES:
